@@ -59,6 +59,19 @@ def st_scenario(draw):
     if kind == 1:
         k = draw(st.integers(1, n))
         return {'A': A, 'B': None, 'a_names': a_names, 'b_names': None, 'text': "select a1, (int('x') if NR == %d else NR)" % k, 'failing': 'runtime-at-%d' % k}
+    if kind == 3:
+        # aggregates (COUNT / MIN / MAX over strings via len, ARRAY_AGG-free: list cells print differently per front-end)
+        key = qgen.field(ctx, table='a')
+        items = [{'k': 'expr', 'e': key}, {'k': 'agg', 'fn': 'COUNT', 'sp': draw(st.sampled_from(['COUNT', 'count'])), 'star': True, 'startext': '*'}]
+        if draw(st.booleans()):
+            f = qgen.sfield(ctx, table='a')
+            items.append({'k': 'agg', 'fn': 'MAX', 'sp': draw(st.sampled_from(['MAX', 'Max'])), 'e': qgen.mk('len(%s)' % f['py'], None, 'int')})
+        q = {'type': 'select', 'items': items, 'group': [key], 'join': None}
+        if draw(st.booleans()):
+            q['top'] = {'n': draw(st.integers(0, 3)), 'form': draw(st.sampled_from(['TOP', 'LIMIT']))}
+        if draw(st.integers(0, 2)) == 0:
+            q['where'] = qgen.e_truthy(ctx)
+        return {'A': A, 'B': None, 'a_names': a_names, 'b_names': None, 'q': q}
     if kind == 2:
         upd = draw(qgen.st_case_update(join_p=0))
         # rebuild on our rectangular table
